@@ -14,7 +14,7 @@ RULE = ('two-sided HR/SM-shaped and SPA specs (ties on both sides, shared lectur
         'pair) evaluations of the reference; distinct = distinct (instance, option set)')
 ASSUMPTIONS = ['SPA-STL blocking-pair definition as worded in C05 (undefined worst assignee => clause false)',
                'CBC decides the pin-probe programs correctly']
-PROFILE = {'name': 'c05', 'spec': {'shapes': ['dense', 'dense', 'tight_lecturer', 'tight_lecturer', 'one_lecturer',
+PROFILE = {'name': 'c05', 'huge_ids_rate': 0.05, 'spec': {'shapes': ['dense', 'dense', 'tight_lecturer', 'tight_lecturer', 'one_lecturer',
                                               'zero_caps', 'all_tied', 'no_ties', 'long_lists', 'lowerq']},
            'opts': {'twopl': True, 'stab': True, 'ncrit_choices': [0, 1, 1, 1, 2],
                     'crit_pool': ['maxsize', 'maxsize', 'minsize', 'minsize', 'gen', 'gre', 'mincost', 'minsqcost',
